@@ -390,11 +390,39 @@ func Eq(a, b *Term) *Term {
 			return B(d.Val.Sign() == 0)
 		}
 	}
-	if a.Op == OIte && b.Op == OConst && a.Args[1].Op == OConst && a.Args[2].Op == OConst {
-		return Ite(a.Args[0], Eq(a.Args[1], b), Eq(a.Args[2], b))
+	if a.Sort == Int {
+		la, ha := Bounds(a)
+		lb, hb := Bounds(b)
+		if (ha != nil && lb != nil && ha.Cmp(lb) < 0) || (la != nil && hb != nil && la.Cmp(hb) > 0) {
+			return False
+		}
+		if r := cmpIte(a, b, Eq); r != nil {
+			return r
+		}
 	}
-	if b.Op == OIte && a.Op == OConst && b.Args[1].Op == OConst && b.Args[2].Op == OConst {
-		return Ite(b.Args[0], Eq(b.Args[1], a), Eq(b.Args[2], a))
+	if a.Sort == Int {
+		// canonical form: non-constant part on the left (positive leading coefficient), constant on the right
+		l := newLin()
+		l.addTerm(a, one)
+		l.addTerm(b, mone)
+		c := new(big.Int).Neg(l.c)
+		l.c = new(big.Int)
+		lhs := l.build()
+		if lhs.Op != OConst {
+			neg := false
+			switch {
+			case lhs.Op == OMul && lhs.Args[0].Op == OConst:
+				neg = lhs.Args[0].Val.Sign() < 0
+			case lhs.Op == OAdd:
+				f := lhs.Args[0]
+				neg = f.Op == OMul && f.Args[0].Op == OConst && f.Args[0].Val.Sign() < 0
+			}
+			if neg {
+				lhs = Neg(lhs)
+				c.Neg(c)
+			}
+			return mk(&Term{Op: OEq, Sort: Bool, Args: []*Term{lhs, Big(c)}})
+		}
 	}
 	if a.ID > b.ID {
 		a, b = b, a
@@ -410,6 +438,12 @@ func Lt(a, b *Term) *Term {
 	if d.Op == OConst {
 		return B(d.Val.Sign() < 0)
 	}
+	if r := cmpByBounds(a, b, true); r != nil {
+		return r
+	}
+	if r := cmpIte(a, b, Lt); r != nil {
+		return r
+	}
 	return mk(&Term{Op: OLt, Sort: Bool, Args: []*Term{a, b}})
 }
 func Le(a, b *Term) *Term {
@@ -420,7 +454,175 @@ func Le(a, b *Term) *Term {
 	if d.Op == OConst {
 		return B(d.Val.Sign() <= 0)
 	}
+	if r := cmpByBounds(a, b, false); r != nil {
+		return r
+	}
+	if r := cmpIte(a, b, Le); r != nil {
+		return r
+	}
 	return mk(&Term{Op: OLe, Sort: Bool, Args: []*Term{a, b}})
+}
+
+// Bounds returns cheap syntactic bounds of an integer term (nil = unknown).
+func Bounds(t *Term) (lo, hi *big.Int) {
+	return boundsDepth(t, 0)
+}
+
+type bnd struct{ lo, hi *big.Int }
+
+var boundsMemo = map[*Term]bnd{}
+
+func boundsDepth(t *Term, depth int) (lo, hi *big.Int) {
+	if t.Op == OConst {
+		return t.Val, t.Val
+	}
+	if b, ok := boundsMemo[t]; ok {
+		return b.lo, b.hi
+	}
+	if depth > 200 {
+		return nil, nil
+	}
+	lo, hi = bounds1(t, depth)
+	if !t.HasBound() {
+		boundsMemo[t] = bnd{lo, hi}
+	}
+	return
+}
+
+func bounds1(t *Term, depth int) (lo, hi *big.Int) {
+	switch t.Op {
+	case OConst:
+		return t.Val, t.Val
+	case OEMod:
+		if c := t.Args[1]; c.Op == OConst && c.Val.Sign() > 0 {
+			return new(big.Int), new(big.Int).Sub(c.Val, one)
+		}
+	case OIte:
+		l1, h1 := boundsDepth(t.Args[1], depth+1)
+		l2, h2 := boundsDepth(t.Args[2], depth+1)
+		if l1 != nil && l2 != nil {
+			lo = l1
+			if l2.Cmp(lo) < 0 {
+				lo = l2
+			}
+		}
+		if h1 != nil && h2 != nil {
+			hi = h1
+			if h2.Cmp(hi) > 0 {
+				hi = h2
+			}
+		}
+		return
+	case OAdd:
+		lo, hi = new(big.Int), new(big.Int)
+		for _, a := range t.Args {
+			l, h := boundsDepth(a, depth+1)
+			if l == nil {
+				lo = nil
+			} else if lo != nil {
+				lo = new(big.Int).Add(lo, l)
+			}
+			if h == nil {
+				hi = nil
+			} else if hi != nil {
+				hi = new(big.Int).Add(hi, h)
+			}
+		}
+		return
+	case OMul:
+		if len(t.Args) == 2 && t.Args[0].Op == OConst {
+			l, h := boundsDepth(t.Args[1], depth+1)
+			k := t.Args[0].Val
+			if k.Sign() >= 0 {
+				if l != nil {
+					lo = new(big.Int).Mul(k, l)
+				}
+				if h != nil {
+					hi = new(big.Int).Mul(k, h)
+				}
+			} else {
+				if h != nil {
+					lo = new(big.Int).Mul(k, h)
+				}
+				if l != nil {
+					hi = new(big.Int).Mul(k, l)
+				}
+			}
+			return
+		}
+	case OMod:
+		if c := t.Args[1]; c.Op == OConst && c.Val.Sign() > 0 {
+			m := new(big.Int).Sub(c.Val, one)
+			l, _ := boundsDepth(t.Args[0], depth+1)
+			if l != nil && l.Sign() >= 0 {
+				return new(big.Int), m
+			}
+			return new(big.Int).Neg(m), m
+		}
+	case ODiv:
+		if c := t.Args[1]; c.Op == OConst && c.Val.Sign() > 0 {
+			l, h := boundsDepth(t.Args[0], depth+1)
+			if l != nil {
+				lo = new(big.Int).Quo(l, c.Val)
+			}
+			if h != nil {
+				hi = new(big.Int).Quo(h, c.Val)
+			}
+			return
+		}
+	case OEDiv:
+		if c := t.Args[1]; c.Op == OConst && c.Val.Sign() > 0 {
+			l, h := boundsDepth(t.Args[0], depth+1)
+			if l != nil {
+				lo, _ = new(big.Int).DivMod(l, c.Val, new(big.Int))
+			}
+			if h != nil {
+				hi, _ = new(big.Int).DivMod(h, c.Val, new(big.Int))
+			}
+			return
+		}
+	}
+	return nil, nil
+}
+
+func cmpByBounds(a, b *Term, strict bool) *Term {
+	la, ha := Bounds(a)
+	lb, hb := Bounds(b)
+	if ha != nil && lb != nil {
+		if c := ha.Cmp(lb); c < 0 || (!strict && c == 0) {
+			return True
+		}
+	}
+	if la != nil && hb != nil {
+		if c := la.Cmp(hb); c > 0 || (strict && c == 0) {
+			return False
+		}
+	}
+	return nil
+}
+
+// constLeafIte reports whether t is an ite tree (bounded size) whose leaves are all constants.
+func constLeafIte(t *Term, budget *int) bool {
+	if t.Op == OConst {
+		return true
+	}
+	if t.Op != OIte || *budget <= 0 {
+		return false
+	}
+	*budget--
+	return constLeafIte(t.Args[1], budget) && constLeafIte(t.Args[2], budget)
+}
+
+func cmpIte(a, b *Term, f func(x, y *Term) *Term) *Term {
+	n := 24
+	if a.Op == OIte && b.Op == OConst && constLeafIte(a, &n) {
+		return Ite(a.Args[0], f(a.Args[1], b), f(a.Args[2], b))
+	}
+	n = 24
+	if b.Op == OIte && a.Op == OConst && constLeafIte(b, &n) {
+		return Ite(b.Args[0], f(a, b.Args[1]), f(a, b.Args[2]))
+	}
+	return nil
 }
 func Gt(a, b *Term) *Term { return Lt(b, a) }
 func Ge(a, b *Term) *Term { return Le(b, a) }
